@@ -168,7 +168,7 @@ Proof.
   destruct Hok as [_ [_ [_ [_ [_ Hwild]]]]].
   rewrite combine_map_self, tl_map in Hem.
   apply error_max_from_Q in Hem; auto.
-  2:{ apply Forall_tl. rewrite Forall_forall in *. intros r Hr. split; [apply Hne; auto|apply Hwild; apply Hpin; auto]. }
+  2:{ apply Forall_tl. exact Hne. }
   destruct Hem as [Em0 _]. exact Em0.
 Qed.
 
@@ -180,11 +180,12 @@ Proof.
 Qed.
 
 Lemma sc_next_window rows perm bg K p g win it :
-  matrix_ok K rows bg -> length perm = length rows -> 0 < g ->
+  matrix_ok K rows bg -> (2 <= length rows)%nat -> length perm = length rows -> 0 < g ->
+  (fst win <= snd win + 1)%Z ->
   sc_next NumQ rows perm bg p g win = Ok it ->
   (fst (io_win it) <= snd (io_win it))%Z.
 Proof.
-  intros Hok Hperm Hg H. unfold sc_next in H.
+  intros Hok HM Hperm Hg Hwin H. unfold sc_next in H.
   apply rbind_ok in H. destruct H as [G [Hrec H]].
   apply rbind_ok in H. destruct H as [o [Hlook H]].
   apply rbind_ok in H. destruct H as [osum [Hosum H]].
@@ -194,10 +195,29 @@ Proof.
   pose proof (ceil_half_pos _ Em0) as Hw.
   assert (Hw' : inject_Z 1 <= inject_Z (Qceiling (g_emax G + (1 # 2)))) by (rewrite <- Zle_Qle; exact Hw).
   change (inject_Z 1) with 1 in Hw'.
+  (* alpha_e <= alpha: the table is sorted *)
+  destruct (recompute_cells _ _ _ _ _ _ Hok Hrec) as [Hcells [Hmaxr HlenG]].
+  destruct (matrix_ok_bg _ _ _ Hok) as [Hunit Hbl].
+  assert (Hrows : distribution NumQ G bg (fst win) (snd win) = Ok (ls_rows o)).
+  { pose proof Hlook as Hl. unfold lookup_score in Hl. cbn [NumQ n_isnan] in Hl.
+    apply rbind_ok in Hl. destruct Hl as [rowsq [Hd Hl]]. rewrite Hd. f_equal.
+    destruct (length (last rowsq [])); [discriminate|].
+    apply rbind_ok in Hl. destruct Hl as [[[riter sum] pvs] [_ Hl]].
+    apply rbind_ok in Hl. destruct Hl as [[[[a0 ae0] pvs'] exh] [_ Hl]].
+    apply rbind_ok in Hl. destruct Hl as [pa [_ Hl]].
+    apply rbind_ok in Hl. destruct Hl as [pe [_ Hl]].
+    inversion Hl; subst o. reflexivity. }
+  assert (Hdist : dist_exact (irows (g_int G) bg) (fst win) (snd win) (last (ls_rows o) [])).
+  { apply (distribution_exact G bg _ _ (ls_rows o) (K - 1)%nat Hrows); [lia|exact Hcells|exact Hmaxr|exact Hunit|exact Hbl|exact Hwin]. }
+  pose proof (lookup_score_alpha_order _ _ _ _ _ _ _ Hlook Hdist) as Hord.
+  assert (Hord' : inject_Z (ls_alpha_e o) <= inject_Z (ls_alpha o)) by (rewrite <- Zle_Qle; exact Hord).
+  assert (HM0 : 0 <= inject_Z (Z.of_nat (length rows))).
+  { change 0 with (inject_Z 0). rewrite <- Zle_Qle. lia. }
   set (w := inject_Z (Qceiling (g_emax G + (1 # 2)))) in *.
-  set (a := inject_Z (ls_alpha o)).
-  change (Qfloor ((a - w) * 10) <= Qfloor ((a + w) * 10))%Z.
-  apply Qfloor_resp_le. lra.
+  set (a := inject_Z (ls_alpha o)) in *. set (ae := inject_Z (ls_alpha_e o)) in *.
+  set (m := inject_Z (Z.of_nat (length rows))) in *.
+  change (Qfloor ((ae - w) * 10 - (10 - 1) * m) <= Qfloor ((a + w) * 10 + (10 - 1) * m))%Z.
+  apply Qfloor_resp_le. nra.
 Qed.
 
 Lemma sc_next_gran rows perm bg p g win it :
@@ -238,7 +258,7 @@ Proof.
     split; [exact Hg|]. split; [lra|]. split; assumption.
   - destruct (io_conv it0); [destruct Hin|].
     destruct (div10_pos g Hg) as [D1 D2].
-    pose proof (sc_next_window _ _ _ _ _ _ _ _ Hok Hperm Hg Enext) as Hwin'.
+    pose proof (sc_next_window _ _ _ _ _ _ _ _ Hok HM Hperm Hg Hwin Enext) as Hwin'.
     assert (Hwin'' : (fst (io_win it0) <= snd (io_win it0) + 1)%Z) by lia.
     destruct (IH _ _ D1 Hwin'' Hin) as [A1 [A2 A3]].
     split; [exact A1|]. split; [lra|exact A3].
@@ -403,7 +423,8 @@ Proof.
     pose proof (ls_total_lt_tailsum _ _ _ _ _ _ Hlook Et) as Hlt. fold lastm in Hlt.
     assert (Hn0 : nth_error lastm 0 = Some (k0, v0)) by (rewrite Hl; reflexivity).
     rewrite (tailsum_spec _ _ _ _ Hdist _ _ _ Hn0) in Hlt.
-    assert (U : unit_rows ir) by (apply (unit_irows (K - 1)); auto).
+    assert (U : unit_rows ir).
+    { apply (unit_irows (K - 1)); auto. destruct Hok as [_ [_ [_ [_ [Hu _]]]]]. exact Hu. }
     assert (E1 : PI_ge ir k0 == wsum ir (fun _ => 1)).
     { unfold PI_ge. apply wsum_ext_in. intros l Hl'.
       assert (Hle : (k0 <= Zsum l)%Z).
